@@ -17,8 +17,12 @@ type gen struct {
 	// expression-level findings (integral floats, unary minus on non-literals, AND/OR mixed
 	// without parentheses, bound parameters); used where the clause structure of statements
 	// and sources is the subject and expressions are covered by the expression parts.
-	plain  bool
-	r      *rand.Rand
+	plain bool
+	r     *rand.Rand
+	// sch != nil: typed expressions over the columns of a loaded measurement (phase
+	// cluster-vs-single, gen_schema.go); comparison() and arith() then draw their operands
+	// from the schema, the AND/OR/parenthesis structure stays the one generated here
+	sch    *genSchema
 	params map[string]interface{} // bound parameters used by the text
 	feat   map[string]bool        // grammar features the text contains (coverage)
 }
@@ -373,6 +377,9 @@ func (g *gen) operand(x piece, needed bool) string {
 
 // arith generates an arithmetic expression (the COLUMN nonterminal).
 func (g *gen) arith(d int) piece {
+	if g.sch != nil {
+		return g.sArith(d)
+	}
 	if d <= 0 || g.p(0.3) {
 		a := g.atom(d)
 		if g.p(0.06) {
@@ -432,6 +439,9 @@ func (g *gen) kw(s string) string {
 }
 
 func (g *gen) comparison(d int) piece {
+	if g.sch != nil {
+		return g.sComparison(d)
+	}
 	switch k := g.r.IntN(100); {
 	case k < 62:
 		op := g.pick(cmpOps...)
